@@ -213,7 +213,10 @@ func (r *replicator) Load(ctx context.Context, entries []ipfslog.Entry) {
 
 		verifhook.At("repl.enqueue", r, r.store, entry.GetHash(), "entry")
 		// signal that we add an entry to the queue
-		if err := r.emitters.evtLoadAdded.Emit(NewEventLoadAdded(entry.GetHash(), entry)); err != nil {
+		evt := NewEventLoadAdded(entry.GetHash(), entry)
+		evt.LogID = r.store.OpLog().GetID()
+
+		if err := r.emitters.evtLoadAdded.Emit(evt); err != nil {
 			r.logger.Warn("unable to emit event load added", zap.Error(err))
 		}
 
@@ -308,7 +311,10 @@ func (r *replicator) processHash(ctx context.Context, item processItem) ([]cid.C
 				continue
 			}
 
-			if err := r.emitters.evtLoadProgress.Emit(NewEventLoadProgress(entry)); err != nil {
+			evt := NewEventLoadProgress(entry)
+			evt.LogID = r.store.OpLog().GetID()
+
+			if err := r.emitters.evtLoadProgress.Emit(evt); err != nil {
 				r.logger.Warn("unable to emit event load progress", zap.Error(err))
 			}
 		}
